@@ -686,13 +686,19 @@ func (rdb *RDB) get(key []byte, ctx *Context) (data []byte, err error) {
 	cachedEntry, ok := ctx.cache[string(key)]
 
 	if ok {
+		if !bytes.Equal(cachedEntry.key, key) {
+			// cached by a closest key search which found only a preceding key:
+			// the key itself does not exist
+			return nil, nil
+		}
 		data = cachedEntry.data
 	} else {
 		data, err = rdb.db.Get(rdb.readOptions, key)
 		if err != nil {
 			return nil, err
 		}
-		ctx.update(key, key, data)
+		// callers reuse their key buffers: the entry must keep its own copy of the key
+		ctx.update(key, copyBytes(key), data)
 	}
 
 	return data, nil
